@@ -235,16 +235,24 @@ def same(a, b):
 
 def observe(c, ids, typ, form):
     """Read every variable through every path that needs no position arithmetic:
-    attribute, name key, position, and each period's own label."""
+    attribute, name key, position, and each period's own label.  An exception raised by the
+    code under test on a path is an observation ('raised:<class>'), compared like any value."""
     out = {}
     for n, name in NAMES.items():
         arr_attr = getattr(c, name)
         arr_key = c[name]
+
+        def by_label(l):
+            try:
+                return np.asarray(c[name, typ.label(l, form)]).tolist()
+            except Exception as e:
+                return f'raised:{type(e).__name__}'
+
         out[name] = {
             'attr': arr_attr.tolist(),
             'key': arr_key.tolist(),
             'pos': [arr_attr[i].item() for i in range(len(ids))],
-            'label': [np.asarray(c[name, typ.label(l, form)]).tolist() for l in ids],
+            'label': [by_label(l) for l in ids],
             'dtype': arr_attr.dtype.kind,
         }
     return out
@@ -256,7 +264,7 @@ def store_diffs(obs, store):
         exp = store[n - 1]
         o = obs[name]
         for path in ('attr', 'key', 'pos', 'label'):
-            if not same(o[path], exp):
+            if any(isinstance(x, (str, list)) for x in o[path]) or not same(o[path], exp):
                 diffs.append(f'{name}:{path}')
         if o['dtype'] != np.dtype(DTYPES[n]).kind:
             diffs.append(f'{name}:dtype')
@@ -342,7 +350,10 @@ def replay_access(rec, typ, form, cls):
         obs = observe(c, ids, typ, form)
         d = store_diffs(obs, ent['store'])
         if d:
-            what = ('changed-on-keyerror:' if op['exc'] == 'KeyError' else 'cells-differ:') + ','.join(sorted(set(x.split(':')[1] for x in d)))
+            paths = sorted(set(x.split(':')[1] for x in d))
+            what = 'changed-on-keyerror' if op['exc'] == 'KeyError' else 'cells-differ'
+            if not {'attr', 'key', 'pos', 'label'} <= set(paths):
+                what += ':' + ','.join(paths)   # the access paths disagree among themselves
             found.append((key_for(op['op'], typ, form, what, op), {'step': step, 'op': op, 'observed': obs, 'expected_store': ent['store'], 'diffs': d}))
             return found
     final = rec['log'][-1]['store']
@@ -489,6 +500,7 @@ def nontrivial(rec):
 def main():
     payload = json.load(open(sys.argv[1]))
     all_types = payload.get('all_types', True)
+    all_classes = payload.get('all_classes', True)
     seed = payload.get('seed', 0)
     only = payload.get('only')  # replay of one finding: {'type':..., 'form':..., 'cls':..., 'phase':...}
     out = {'n': 0, 'nontrivial': 0, 'distinct': 0, 'mismatches': [], 'keys': {}, 'by_type': {}, 'ops': {}}
@@ -507,7 +519,7 @@ def main():
             elif not all_types and combos:
                 combos = [combos[(idx + seed) % len(combos)]]
             for j, (typ, form) in enumerate(combos):
-                classes = ['container', 'model'] if all_types else [['container', 'model'][(idx + j + seed) % 2]]
+                classes = ['container', 'model'] if all_types and all_classes else [['container', 'model'][(idx + j + seed) % 2]]
                 if only:
                     classes = [only['cls']] if only.get('cls') in ('container', 'model') else []
                 runs = []
